@@ -23,3 +23,52 @@ Print Assumptions canonicalize_is_renaming.
 (* The model is a pure function: "the object passed in is left unchanged" and "repeated calls give
    identical results" are not statements a Gallina function can violate; they are decided on the
    implementation by the before/after object comparison of the C12 check (harness/mol_checks.py). *)
+
+(* ------------------------------------------------------------------------------------------------ *)
+(* The quantifier closed over the readers (Proofs/EndToEnd2.v): wfg is a theorem about every graph the
+   molfile entry point returns (ReadersNoZero.read_molfile_wfg).  The payload of a graph read is
+   Molfile.rpay (element symbol, charge, coordinates) and the bond data is the bond type (Z): both
+   are carried unchanged (`pay x` in the frame, `map_bond lam` keeps the third component). *)
+Require Import Text Parse Molfile.
+Require V2000 EndToEnd2.
+
+Theorem C12_molfile_text_canonicalize_renaming :
+  forall canon, H1 canon ->
+  forall (s : text) (g c : mol rpay Z),
+    V2000.read_molfile s = ok g -> canonicalize canon g = Some c ->
+    exists lam : N -> N,
+      inj_on lam (labels g) /\
+      Permutation (map lam (labels g)) (N_seq 0 (length (atoms g))) /\
+      map frame (atoms c) = map (fun x => (lam (lbl x), zn x, mass x, rad x, pay x)) (atoms g) /\
+      bonds c = map (map_bond lam) (bonds g).
+Proof. exact (@EndToEnd2.molfile_text_canonicalize_renaming). Qed.
+Print Assumptions C12_molfile_text_canonicalize_renaming.
+
+(* With at least one atom the canonical graph exists (C15); the reader numbers the atoms 0..n-1, so
+   lam is a permutation of 0..n-1. *)
+Theorem C12_molfile_text_canonical_graph :
+  forall canon, H1 canon ->
+  forall (s : text) (g : mol rpay Z),
+    V2000.read_molfile s = ok g -> atoms g <> nil ->
+    exists (c : mol rpay Z) (lam : N -> N),
+      canonicalize canon g = Some c /\
+      labels g = N_seq 0 (length (atoms g)) /\
+      inj_on lam (N_seq 0 (length (atoms g))) /\
+      Permutation (map lam (N_seq 0 (length (atoms g)))) (N_seq 0 (length (atoms g))) /\
+      map frame (atoms c) = map (fun x => (lam (lbl x), zn x, mass x, rad x, pay x)) (atoms g) /\
+      bonds c = map (map_bond lam) (bonds g).
+Proof. exact (@EndToEnd2.molfile_text_canonical_graph). Qed.
+Print Assumptions C12_molfile_text_canonical_graph.
+
+(* The same for every graph the reference reader of strings returns. *)
+Theorem C12_tucan_string_canonicalize_renaming :
+  forall canon, H1 canon ->
+  forall (t0 : text) (g c : mol unit unit),
+    ref_parse t0 = inr g -> canonicalize canon g = Some c ->
+    exists lam : N -> N,
+      inj_on lam (labels g) /\
+      Permutation (map lam (labels g)) (N_seq 0 (length (atoms g))) /\
+      map frame (atoms c) = map (fun x => (lam (lbl x), zn x, mass x, rad x, pay x)) (atoms g) /\
+      bonds c = map (map_bond lam) (bonds g).
+Proof. exact (@EndToEnd2.tucan_string_canonicalize_renaming). Qed.
+Print Assumptions C12_tucan_string_canonicalize_renaming.
